@@ -257,6 +257,8 @@ def rule_pipeline_tail(ctx: Ctx, rule: str, which: set[str] | None = None, text:
             nd_apps = [(i, e) for i, e in after if e[0] == 'call' and e[1].endswith('.append') and _recv(e[1], N)]
             if dec['ND'] is None and nd_apps:
                 bad_nd.append('NODIR pattern appended without testing NODIR')
+            if dec['ND'] is None and p_nonempty:
+                bad_nd.append('the inclusion list is non-empty (default included) but NODIR was not consulted')
             if len(nd_apps) != (1 if want_nd else 0):
                 bad_nd.append(f'P non-empty={p_nonempty} NODIR={dec["ND"]}: {len(nd_apps)} append(s) to the exclusion list')
             elif nd_apps:
